@@ -1267,24 +1267,42 @@ class PendingImport(PendingNode[Import]):
     def get_result(self) -> list[expr]:
         result = []
         for _alias in self.node.names:
-            if _alias.asname is None:
-                asname = _alias.name
-            else:
-                asname = _alias.asname
-
-            result.append(
-                self.nsp.get_assign(
-                    asname,
-                    Call(
-                        func=Attribute(
-                            value=Name(id="importlib", ctx=Load()),
-                            attr="import_module",
-                        ),
-                        args=[Constant(value=_alias.name)],
-                        keywords=[],
-                    ),
-                )
+            import_expr: expr = Call(
+                func=Attribute(
+                    value=Name(id="importlib", ctx=Load()),
+                    attr="import_module",
+                ),
+                args=[Constant(value=_alias.name)],
+                keywords=[],
             )
+            if _alias.asname is not None:
+                asname = _alias.asname
+            elif "." in _alias.name:
+                # import a.b.c
+                # The submodule is imported, the top-level package is bound
+                asname = _alias.name.split(".")[0]
+                import_expr = Subscript(
+                    value=List(
+                        elts=[
+                            import_expr,
+                            Call(
+                                func=Attribute(
+                                    value=Name(id="importlib", ctx=Load()),
+                                    attr="import_module",
+                                ),
+                                args=[Constant(value=asname)],
+                                keywords=[],
+                            ),
+                        ],
+                        ctx=Load(),
+                    ),
+                    slice=Constant(value=-1),
+                    ctx=Load(),
+                )
+            else:
+                asname = _alias.name
+
+            result.append(self.nsp.get_assign(asname, import_expr))
 
         return result
 
